@@ -18,6 +18,9 @@ from btclib.script.engine import script as ES
 from btclib.script.engine import script_op_codes as OPC
 from btclib.script.engine import tapscript as TS
 from btclib.script.engine.flags import ALL_FLAGS, NO_FLAGS, ScriptFlag
+from btclib.exceptions import BTClibValueError
+from btclib.script import engine as ENG
+from btclib.script.witness import Witness
 
 from . import common, shared
 from . import c08_gen as G
@@ -41,6 +44,8 @@ TRUSTED = [
     "the btclib-shaped loop models (Model/C08/Btclib.lean for engine/script.py, Model/C08/BtclibTap.lean for "
     "engine/tapscript.py + taproot.parse's pre-scan) are tied to the code by the bt.eval* / bt.tapscript streams only; the "
     "tapscript model has no loop-level refinement theorem (op level: OP_CHECKSIG; dispatch list)",
+    "Model/C08/BtclibVerify.lean (validate_push_only, taproot_get_annex) is tied to engine/__init__.py by the bt.pushonly / "
+    "bt.annex streams only; the rest of verify_input has no btclib-shaped model (core.verify_input stream only)",
 ]
 ASSUMPTIONS = [
     "flag sets are closed under Core's assertions (WITNESS => P2SH, CLEANSTACK => P2SH and WITNESS)",
@@ -82,6 +87,20 @@ def impl(line: str) -> str:
             return "err " + common.err_class(e)
         stop = sp[-1][2] if sp else 0
         return "ok " + (",".join(f"{o}:{s}:{e}" for o, s, e in sp) if sp else "-") + f" tail={len(b) - stop}"
+    if op in ("bt.pushonly", "core.pushonly"):
+        try:
+            ENG.validate_push_only(unhx(t[1]))
+        except BTClibValueError:
+            return "ok False"
+        except Exception as e:  # noqa: BLE001
+            return "err " + common.err_class(e)
+        return "ok True"
+    if op in ("bt.annex", "core.annex"):
+        try:
+            annex, rest = ENG.taproot_get_annex(Witness(SP.unhexlist(t[1])))
+        except Exception as e:  # noqa: BLE001
+            return "err " + common.err_class(e)
+        return f"ok {hx(annex)}|{SP.hexlist(rest)}" if op == "bt.annex" else f"ok {SP.hexlist(rest)}"
     if op == "fad":
         try:
             r, n = ES.find_and_delete(unhx(t[1]), unhx(t[2]))
@@ -162,6 +181,106 @@ def _o_spans(w):
     return S.serialize(S.parse(again)) == again, "serialize(parse(.)) is not idempotent"
 
 
+def _core_is_push_only(b: bytes) -> bool:
+    """CScript::IsPushOnly over an own transcription of GetScriptOp (nothing of btclib's parser)"""
+    pc = 0
+    while pc < len(b):
+        o = b[pc]
+        pc += 1
+        if 0 < o <= 78:
+            if o < 76:
+                n = o
+            else:
+                w = 1 << (o - 76)
+                if len(b) - pc < w:
+                    return False
+                n = int.from_bytes(b[pc:pc + w], "little")
+                pc += w
+            if len(b) - pc < n:
+                return False
+            pc += n
+        if o > 0x60:
+            return False
+    return True
+
+
+def _o_push_only(w):
+    b = bytes.fromhex(w["b"])
+    want = _core_is_push_only(b)
+    got = impl("bt.pushonly " + hx(b))
+    if got != f"ok {want}":
+        return False, f"validate_push_only({b.hex()[:160]}) -> {got}, IsPushOnly = {want}"
+    # the flag route: _check_script_sig_policy under SIGPUSHONLY alone refuses exactly the same scripts
+    try:
+        ENG._check_script_sig_policy(b, ScriptFlag.SIGPUSHONLY)
+        pol = True
+    except BTClibValueError:
+        pol = False
+    except Exception as e:  # noqa: BLE001
+        return False, f"_check_script_sig_policy raised {type(e).__name__}"
+    if pol != want:
+        return False, f"_check_script_sig_policy(SIGPUSHONLY) on {b.hex()[:160]} -> {pol}, IsPushOnly = {want}"
+    try:
+        ENG._check_script_sig_policy(b, NO_FLAGS)
+    except Exception as e:  # noqa: BLE001
+        return False, f"_check_script_sig_policy(NO_FLAGS) raised {type(e).__name__}"
+    return True, ""
+
+
+def _o_annex(w):
+    st = [bytes.fromhex(x) for x in w["stack"]]
+    wit = Witness(st)
+    before = tuple(wit.stack)
+    annex, rest = ENG.taproot_get_annex(wit)
+    has = len(st) >= 2 and len(st[-1]) > 0 and st[-1][0] == 0x50      # BIP341
+    want = (st[-1], st[:-1]) if has else (b"", st)
+    if (annex, rest) != want:
+        return False, f"taproot_get_annex({[x.hex() for x in st]}) = {(annex.hex(), [x.hex() for x in rest])}"
+    return tuple(wit.stack) == before, "taproot_get_annex wrote to the witness"
+
+
+def push_only_scripts(rng, n):
+    """mostly push-only byte strings: pushes of every width and minimality, OP_1NEGATE..OP_16 and OP_RESERVED; then one
+    operator inserted, a byte flipped, or the end cut (an unreadable last push)"""
+    out = [b"", b"\x00", b"\x50", b"\x60", b"\x61", b"\x4c", b"\x4c\x01", b"\x01", b"\x4e\x00\x00\x00\x00", b"\xff",
+           b"\x51\x61", b"\x01\x61", b"\x4d\x01\x00\x61", b"\x4d\x02\x00\x61", b"\x02\x4e\x73\x51"]
+    while len(out) < n:
+        parts = []
+        for _ in range(rng.randrange(0, 7)):
+            r = rng.random()
+            if r < 0.3:
+                parts.append(bytes([rng.choice([0, *range(0x4f, 0x61)])]))
+            else:
+                ln = rng.choice([0, 1, 2, 3, 20, 33, 72, 75, 76, 80, 255, 256, 300])
+                parts.append(G.push(G.rand_bytes(rng, ln), rng.choice([None, None, None, 76, 77, 78])))
+        b = b"".join(parts)
+        r = rng.random()
+        if r < 0.15:
+            k = rng.randrange(len(b) + 1)
+            b = b[:k] + bytes([rng.randrange(0x61, 0x100)]) + b[k:]
+        elif r < 0.3 and b:
+            k = rng.randrange(len(b))
+            b = b[:k] + bytes([b[k] ^ (1 << rng.randrange(8))]) + b[k + 1:]
+        elif r < 0.45 and b:
+            b = b[: rng.randrange(len(b))]
+        elif r < 0.5:
+            b = G.rand_bytes(rng, rng.randrange(6))
+        out.append(b)
+    return out[:max(n, 20)]
+
+
+def annex_stacks(rng, n):
+    out = [[], [b""], [b"\x50"], [b"", b""], [b"\x01", b"\x50"], [b"\x50", b"\x50"], [b"\x01", b""], [b"\x01", b"\x51"],
+           [b"\x50\x01", b"\x02", b"\x50" + b"\x00" * 40], [b"\x01", b"\x00\x50"]]
+    while len(out) < n:
+        st = [G.rand_bytes(rng, rng.choice([0, 1, 2, 32, 33, 64, 65])) for _ in range(rng.randrange(0, 5))]
+        if st and rng.random() < 0.6:
+            k = rng.choice([-1, -1, -1, 0])
+            st[k] = rng.choice([b"\x50", b"\x50" + st[k], b"\x51" + st[k], b"", b"\x00\x50"])
+        out.append(st)
+    return out[:max(n, 10)]
+
+
 def _dl(o, b, s):
     """data length of the push at s"""
     if o < 76:
@@ -176,6 +295,8 @@ ORACLES = {
     "bool.casttobool": _o_bool,
     "parse.spans": _o_spans,
     "engine.invariants": SP.o_engine_invariants,
+    "pushonly.core": _o_push_only,
+    "annex.bip341": _o_annex,
 }
 
 
@@ -445,6 +566,19 @@ def run(ctx):
         ctx.check("parse.spans", {"b": b.hex()})
     fad = G.fad_cases(rng, ctx.n(400))
     spec(ctx, "core.find_and_delete", [f"fad {hx(s)} {hx(t)}" for s, t in fad], lambda *_: "find_and_delete_vs_core")
+
+    # ---- VerifyScript shell helpers: validate_push_only = IsPushOnly, taproot_get_annex = Core's annex rule (Props T6)
+    po = push_only_scripts(rng, ctx.n(1200)) + scripts[: ctx.n(300)]
+    ctx.stream("bt.pushonly", [f"bt.pushonly {hx(b)}" for b in po])
+    spec(ctx, "core.pushonly", [f"core.pushonly {hx(b)}" for b in po], lambda *_: "push_only_vs_core")
+    for b in po[: ctx.n(700)]:
+        ctx.check("pushonly.core", {"b": b.hex()}, nontrivial=_core_is_push_only(b) and len(b) > 0)
+    ax = annex_stacks(rng, ctx.n(400))
+    ctx.stream("bt.annex", [f"bt.annex {SP.hexlist(st)}" for st in ax])
+    spec(ctx, "core.annex", [f"core.annex {SP.hexlist(st)}" for st in ax], lambda *_: "annex_vs_core")
+    for st in ax[: ctx.n(300)]:
+        ctx.check("annex.bip341", {"stack": [x.hex() for x in st]},
+                  nontrivial=len(st) >= 2 and st[-1][:1] == b"\x50")
 
     # ---- spec validation on Core's vectors
     core_vectors(ctx)
